@@ -534,3 +534,29 @@ Theorem C05_bind_once_generation_refuted :
   create_msgs false (s_toc s) (c_id (get s 0)) (c_vars (get s 0)) = ([], Some ValueError).
 Proof. exact ex_generation_follows_session. Qed.
 Print Assumptions C05_bind_once_generation_refuted.
+
+(* ---------------------------------------------------------------- late acknowledgements of the old session (wave 15) *)
+(* the reset reply of a new session forgets the state of every configuration of log_blocks -- for EVERY state,
+   hence whatever acknowledgements of the old session (create, start, stop, delete, for blocks in any lifecycle
+   state) were dispatched after its link was gone *)
+Theorem C05_reset_reply_forgets : forall s cmd id status, blocks_valid s -> reset_applies s cmd = true ->
+  let s1 := fst (fst (on_settings s cmd id status)) in
+  s_blocks s1 = [] /\
+  forall h, memb h (s_blocks s) = true -> flags (get s1 h) = (false, false) /\ c_pending (get s1 h) = 0.
+Proof. exact reset_reply_forgets. Qed.
+Print Assumptions C05_reset_reply_forgets.
+
+(* a create acknowledgement dispatched after the disconnect sets added again; the code forgets at the reset
+   reply and the re-added configuration is created; forgetting at the disconnect instead (seeded/C05-o) leaves
+   added set and start() sends START for a block the device does not have *)
+Theorem C05_forget_at_disconnect_refuted :
+  let s := final init_st ex_late_ack_history in
+  flags (get s 0) = (true, false) /\
+  (let s2 := final s [ERefresh true; EPacket 1 [5; 0; 0]; ESetToc ex_toc; EAddConfig 0] in
+   flags (get s2 0) = (false, false) /\ c_pending (get s2 0) = 0 /\
+   snd (fst (start s2 0)) = [OWire 5 1 [6; 2; 17; 45; 1] [6; 2]]) /\
+  (let s2' := final (reset_reply_without_forget (final s [ERefresh true])) [ESetToc ex_toc; EAddConfig 0] in
+   flags (get s2' 0) = (true, false) /\
+   snd (fst (start s2' 0)) = [OWire 5 1 [3; 2; 10] [3; 2]]).
+Proof. exact ex_late_ack. Qed.
+Print Assumptions C05_forget_at_disconnect_refuted.
